@@ -293,6 +293,14 @@ func (e *Env) RunProperty(id string) int {
 		}
 		r.Workers, r.SolverKind, r.TimeoutMs, r.DumpDir, r.MapOrder = e.Workers, e.Solver, e.TimeoutMs, e.Dump, in.MapOrder
 		r.TraceBudget = 2
+		// stop early once a harness has produced plenty of counterexamples - unless it has listed known findings, whose
+		// counterexamples must not hide a different violation found later in the exploration
+		r.MaxViolations = 24
+		for _, k := range known {
+			if k.Harness == in.Fn && k.Status == "open" {
+				r.MaxViolations = 0
+			}
+		}
 		if in.EngineReplay {
 			r.TraceBudget = 0
 		}
